@@ -64,7 +64,9 @@ Lemma k_cache_expire k id : keeps DI (cache_expire cfg k id).
 Proof. unfold cache_expire. kp. Qed.
 Lemma k_cache_try_get k id roots : keeps DI (cache_try_get cfg k id roots).
 Proof. unfold cache_try_get. kp. Qed.
-Local Hint Resolve k_cache_get k_cache_put k_cache_created k_cache_expire k_cache_try_get : kp.
+Lemma k_cache_purge k id : keeps DI (cache_purge k id).
+Proof. unfold cache_purge. kp. Qed.
+Local Hint Resolve k_cache_get k_cache_put k_cache_created k_cache_expire k_cache_purge k_cache_try_get : kp.
 
 Lemma k_select_init o r : keeps DI (select_init o r).
 Proof. unfold select_init. upd. Qed.
@@ -128,7 +130,7 @@ Lemma k_so_expire o : keeps DI (so_expire cfg o).
 Proof. unfold so_expire. kp. Qed.
 Lemma k_so_read o c : keeps DI (so_read o c).
 Proof. unfold so_read. kp. Qed.
-Lemma k_so_destroy o : keeps DI (so_destroy cfg o).
+Lemma k_so_destroy o : keeps DI (so_destroy o).
 Proof. unfold so_destroy. kp. Qed.
 Local Hint Resolve k_so_sync k_so_expire k_so_read k_so_destroy : kp.
 
